@@ -40,7 +40,7 @@ import (
 // tables, one hex line each (inputs only).
 func init() {
 	hx.RegisterExec("rt", execRoundTrip)
-	hx.RegisterSub("harvest", harvest)
+	hx.RegisterSub("rtharvest", rtHarvest)
 }
 
 var locType = reflect.TypeOf((*position.Location)(nil))
@@ -55,13 +55,13 @@ func astDiff(a, b reflect.Value, path string, depth int) string {
 		return path + ": too deep"
 	}
 	if a.IsValid() != b.IsValid() {
-		return fmt.Sprintf("%s: %s != %s", path, describe(a), describe(b))
+		return fmt.Sprintf("%s: %s != %s", path, rtDescribe(a), rtDescribe(b))
 	}
 	if !a.IsValid() {
 		return ""
 	}
 	if a.Type() != b.Type() {
-		return fmt.Sprintf("%s: %s != %s", path, describe(a), describe(b))
+		return fmt.Sprintf("%s: %s != %s", path, rtDescribe(a), rtDescribe(b))
 	}
 	t := a.Type()
 	if t == locType || t == spanType || t == posType {
@@ -71,13 +71,13 @@ func astDiff(a, b reflect.Value, path string, depth int) string {
 	case reflect.Ptr, reflect.Interface:
 		if a.IsNil() || b.IsNil() {
 			if a.IsNil() != b.IsNil() {
-				return fmt.Sprintf("%s: %s != %s", path, describe(a), describe(b))
+				return fmt.Sprintf("%s: %s != %s", path, rtDescribe(a), rtDescribe(b))
 			}
 			return ""
 		}
 		ae, be := a.Elem(), b.Elem()
 		if ae.Type() != be.Type() {
-			return fmt.Sprintf("%s: %s != %s", path, describe(a), describe(b))
+			return fmt.Sprintf("%s: %s != %s", path, rtDescribe(a), rtDescribe(b))
 		}
 		p := path
 		if a.Kind() == reflect.Interface {
@@ -150,7 +150,7 @@ func astDiff(a, b reflect.Value, path string, depth int) string {
 	return ""
 }
 
-func describe(v reflect.Value) string {
+func rtDescribe(v reflect.Value) string {
 	if !v.IsValid() {
 		return "nothing"
 	}
@@ -159,14 +159,14 @@ func describe(v reflect.Value) string {
 		if v.IsNil() {
 			return "nil"
 		}
-		return describe(v.Elem())
+		return rtDescribe(v.Elem())
 	case reflect.Struct:
 		return v.Type().Name()
 	}
 	return v.Type().String()
 }
 
-func oneLine(s string, n int) string {
+func rtOneLine(s string, n int) string {
 	s = strings.NewReplacer("\n", "\\n", "\t", "\\t", "\r", "\\r").Replace(s)
 	if len(s) > n {
 		s = s[:n] + "…"
@@ -210,12 +210,12 @@ func roundTripOnce(src string) (out rtOutcome) {
 	prog2, diags2 := parser.Parse("<rt>", printed)
 	if len(diags2) > 0 {
 		out.kind = "reparse"
-		out.detail = oneLine(diags2[0].Message, 100)
+		out.detail = rtOneLine(diags2[0].Message, 100)
 		return
 	}
 	if d := astDiff(reflect.ValueOf(prog), reflect.ValueOf(prog2), "", 0); d != "" {
 		out.kind = "diff"
-		out.detail = oneLine(d, 200)
+		out.detail = rtOneLine(d, 200)
 		return
 	}
 	out.kind = "same"
@@ -404,7 +404,7 @@ func execRoundTrip(f []string) string {
 
 // ---- harvesting Elk sources from the elk tree
 
-func harvest(args []string) int {
+func rtHarvest(args []string) int {
 	if len(args) < 1 {
 		fmt.Fprintln(os.Stderr, "usage: elkh harvest <elk repo>")
 		return 2
